@@ -543,11 +543,24 @@ def run(plan, tier="quick") -> RunResult:
                 if backend == "dir" and key is not None and name in ("write", "write_nc", "drop_nc"):
                     tree_after = simos.snapshot_tree(root)
                     allowed = files_of(store, key)
+                    sfx = store.suffix
+
+                    def is_record(p):
+                        # a path that holds (part of) some identifier's record; temporary or
+                        # staging files an implementation may use are not records
+                        parts = p.split("/")
+                        if len(parts) == 2 and parts[0] == "store":
+                            return parts[1].endswith(f".{sfx}") and not parts[1].startswith((".", "tmp"))
+                        if len(parts) == 3 and parts[0] == "store" and parts[1] == "not_completed":
+                            return parts[2].endswith(".json")
+                        if len(parts) == 3 and parts[0] == "store" and parts[1] == "md5":
+                            return parts[2].endswith(".txt")
+                        return False
+
                     changed = sorted(
                         p for p in set(tree_before) | set(tree_after)
                         if tree_before.get(p, "absent") != tree_after.get(p, "absent")
-                        and p not in allowed and not p.startswith("store/logs")
-                        and p not in ("store/not_completed", "store/md5", "store/logs")
+                        and p not in allowed and is_record(p)
                     )
                     if changed and mode != "r":
                         res.add(
